@@ -78,14 +78,29 @@ def inp(T, name="src", utxos=None, redeemer=None):
     return T.st("Input", name=StrM(name, True), utxos=utxos if utxos is not None else input_leaf(T, name), redeemer=redeemer or T.none())
 
 
-def positions(T):
-    """name -> (builder(leaf) -> Tx, expected parameter names, expected query names, has_compiler_op)"""
+TX_FIELDS = ["fees", "references[0]", "inputs[0].redeemer", "outputs[0].address", "outputs[0].datum", "outputs[0].amount", "asset.policy", "asset.name",
+             "validity.since", "validity.until", "mints[0].amount", "mints[0].redeemer", "burns[0].amount", "burns[0].redeemer", "adhoc[0].data", "adhoc[0].data.nested",
+             "collateral[0].utxos", "signers[0]", "metadata[0].key", "metadata[0].value"]
+
+
+def positions(T, kind="param"):
+    """name -> (builder(leaf) -> Tx, expected parameter names, expected query names, has_compiler_op);
+    kind = which leaf sits at the position: a parameter, the datum of an input (`vault`), or `fees`"""
     P = "p"
-    L = lambda: leaf(T, P)
+    if kind == "param":
+        L = lambda: leaf(T, P)
+    elif kind == "input":
+        L = lambda: coerce(T, "IntoDatum", input_leaf(T, "vault"))
+    else:
+        L = lambda: fees_leaf(T)
     pos = {}
 
     def add(name, tx, params=("p",), queries=(), cop=False):
-        pos[name] = (tx, set(params), set(queries), cop)
+        if kind == "input":
+            params, queries = (), tuple(queries) + ("vault",)
+        elif kind == "fees":
+            params = ()
+        pos[name if kind == "param" else "%s@%s" % (kind, name)] = (tx, set(params), set(queries), cop)
     add("fees", lambda: mk_tx(T, fees=L()))
     add("references[0]", lambda: mk_tx(T, references=[L()]))
     add("inputs[0].redeemer", lambda: mk_tx(T, inputs=[inp(T, redeemer=L())]), queries=("src",))
@@ -155,8 +170,8 @@ def keys_of(m):
 
 def h_position(ctx, tier, seed, names):
     eng = ctx.eng; T = TIR(eng)
-    pos = positions(T)
     name = names[eng.choose(len(names), "position")]
+    pos = positions(T, name.split("@")[0] if "@" in name else "param")
     build, want_params, want_queries, cop = pos[name]
     tx = build()
     # ground truth from the independent walk
@@ -271,4 +286,9 @@ def _chunk(k, n):
 NCH = 6
 HARNESSES = [_h("c06_positions_%d" % k, (lambda k: lambda ctx, tier, seed: h_position(ctx, tier, seed, _chunk(k, NCH)))(k),
                 "template positions %s; 3 stage orders; argument and fee symbolic" % ", ".join(_chunk(k, NCH))) for k in range(NCH)]
+for _k in ("input", "fees"):
+    for _c in range(2):
+        _nm = ["%s@%s" % (_k, f) for i, f in enumerate(TX_FIELDS) if i % 2 == _c]
+        HARNESSES.append(_h("c06_%s_leaf_%d" % (_k, _c), (lambda nm: lambda ctx, tier, seed: h_position(ctx, tier, seed, nm))(_nm),
+                            "the %s leaf at the transaction fields %s; 3 stage orders" % ("input-datum" if _k == "input" else "fees", ", ".join(f for i, f in enumerate(TX_FIELDS) if i % 2 == _c))))
 HARNESSES.append(_h("c06_missing_arg", h_missing_arg, "3 declared parameters + 4 undeclared extras, each with symbolic presence in the argument map (128 maps)"))
